@@ -399,6 +399,10 @@ def run(ctx):
     PANTR.attach(ctx, extra_oracle=on_run)
     from vf.props import FISTA
     FISTA.attach(ctx, extra_oracle=on_run)
+    # PANOC-OCP keeps its own copy of the status chain: whole runs of the real PANOCOCPSolver (incl. the stream where one forward sweep yields
+    # a NaN cost) against the loop model and the status clauses (iterations <= max_iter, MaxIter / Converged / NotFinite / Interrupted meaning)
+    from vf.props import PANOCOCP
+    PANOCOCP.attach(ctx, scale=0.2)
 
 def np_case(rq, o):
     """PANOC / ZeroFPR / FISTA runs that ended for a reason ranked below NoProgress or with NoProgress itself"""
